@@ -24,7 +24,7 @@ from __future__ import annotations
 import ast
 from typing import Optional
 
-from ..core import AnalysisError, ClassInfo, FuncInfo, ancestors, attr_chain, call_name, norm, parents_map, short, walk_local
+from ..core import AnalysisError, ClassInfo, FuncInfo, ancestors, attr_chain, call_name, norm, parents_map, self_attr, short, walk_local
 from ..engine import Engine
 from ..report import Check
 
@@ -279,14 +279,105 @@ def run(chk: Check, eng: Engine) -> None:
                     "draws from it ignore the run's seed", keyparts="private-rng|" + short(c, 30))
     chk.ok("R17-b", "fandango.*", 0, f"no unseeded private random generator in {len(reach)} API-reachable functions")
 
+    # ---- R17-d ---------------------------------------------------------------
+    # the seed reaches random.seed() for *every* integer: presence tests on the way are `is not None` / hasattr, never truthiness (0 is a seed)
+    chk.rule("R17-d", "on the way from the command line / the constructor to random.seed() the seed is tested for presence (`is not None`, hasattr), never for truthiness", floor=2)
+
+    def presence_conjuncts(test: ast.AST) -> tuple[list[ast.AST], list[ast.AST]]:
+        """(presence tests, truthiness tests) among the conjuncts of `test`."""
+        conj = test.values if isinstance(test, ast.BoolOp) and isinstance(test.op, ast.And) else [test]
+        pres, truth = [], []
+        for c in conj:
+            if isinstance(c, ast.Compare) and len(c.ops) == 1 and isinstance(c.ops[0], (ast.IsNot, ast.Is, ast.In, ast.NotIn)):
+                pres.append(c)
+            elif isinstance(c, ast.Call) and call_name(c) in ("hasattr", "isinstance"):
+                pres.append(c)
+            elif isinstance(c, ast.Compare):
+                pres.append(c)  # an explicit comparison is a decision of its own, not an accidental truthiness test
+            else:
+                truth.append(c)
+        return pres, truth
+
+    # (a) the seeding statement in the constructor
+    pm_init = parents_map(init.node)
+    for c in walk_local(init.node):
+        if isinstance(c, ast.Call) and norm(c.func) == "random.seed":
+            for a in ancestors(pm_init, c):
+                if isinstance(a, ast.If):
+                    pres, truth = presence_conjuncts(a.test)
+                    bad_t = [t for t in truth if "seed" in norm(t)]
+                    if bad_t:
+                        chk.bad("R17-d", eng.relfile(init), a.lineno, init.fq, f"`random.seed(...)` is guarded by the truth value of `{short(bad_t[0])}`",
+                                "seed 0 is falsy: the run is seeded from OS entropy and is not reproducible", keyparts="seed-truthiness|init")
+                    else:
+                        chk.ok("R17-d", init.fq, a.lineno, f"`random.seed(...)` is guarded by the presence test `{short(a.test)}`")
+    # (b) the command-line plumbing: every function that copies an option named random_seed, and the helpers it delegates to
+    cli_mod = eng.module("fandango.cli.utils")
+    copiers = []
+    for f in eng.ix.all_functions:
+        if f.module != "fandango.cli.utils":
+            continue
+        for c in walk_local(f.node):
+            if isinstance(c, ast.Call) and any(isinstance(a, ast.Constant) and a.value == "random_seed" for a in c.args) and isinstance(c.func, ast.Name):
+                r = eng.ix.resolve_name(cli_mod, c.func.id)
+                if isinstance(r, FuncInfo) and r not in copiers:
+                    copiers.append(r)
+    if not copiers:
+        raise AnalysisError("fandango.cli.utils: no helper copies the option 'random_seed' into the settings any more")
+    for h in copiers:
+        pm_h = parents_map(h.node)
+        stores = [n for n in walk_local(h.node) if isinstance(n, ast.Assign) and any(isinstance(t, ast.Subscript) for t in n.targets)]
+        if not stores:
+            raise AnalysisError(f"{h.fq}: no `settings[...] = ...` store found")
+        # locals that hold the option's value
+        val_locals = {t.id for n in walk_local(h.node) if isinstance(n, ast.Assign) and isinstance(n.value, ast.Call) and call_name(n.value) == "getattr" for t in n.targets if isinstance(t, ast.Name)}
+        for st in stores:
+            for a in ancestors(pm_h, st):
+                if isinstance(a, ast.If):
+                    pres, truth = presence_conjuncts(a.test)
+                    bad_t = [t for t in truth if (isinstance(t, ast.Name) and t.id in val_locals) or (isinstance(t, ast.Call) and call_name(t) == "getattr") or
+                             (isinstance(t, ast.NamedExpr))]
+                    if bad_t:
+                        chk.bad("R17-d", eng.relfile(h), a.lineno, h.fq, f"`{short(st, 50)}` is guarded by the truth value of `{short(bad_t[0])}`",
+                                "an option given as 0 (`--random-seed 0`) is dropped: the run is seeded from OS entropy and differs from run to run", keyparts="seed-truthiness|cli")
+                    else:
+                        chk.ok("R17-d", h.fq, a.lineno, f"`{short(st, 50)}` is guarded by presence tests only: `{short(a.test, 80)}`")
+
     # ---- R17-c ---------------------------------------------------------------
     BUILTIN_CONTENT = {"str", "int", "bytes", "float", "bool", "tuple", "frozenset", "NoneType"}
 
-    def content_hashed(c: ClassInfo) -> Optional[bool]:
+    _ch_cache: dict[str, Optional[bool]] = {}
+
+    def content_hashed(c: ClassInfo, depth: int = 0) -> Optional[bool]:
+        if c.fq in _ch_cache:
+            return _ch_cache[c.fq]
+        _ch_cache[c.fq] = True  # cycles: assume content (the cycle's other members decide)
+        r = _content_hashed(c, depth)
+        _ch_cache[c.fq] = r
+        return r
+
+    def _content_hashed(c: ClassInfo, depth: int) -> Optional[bool]:
+        from ..core import ann_class_names
         for k in c.mro():
             if "__hash__" in k.methods:
-                src = norm(k.methods["__hash__"].node)
-                return "id(self)" not in src
+                hm = k.methods["__hash__"]
+                src = norm(hm.node)
+                if "id(self" in src or "id(" in src:
+                    return False
+                # a content hash over attributes is only as stable as the hashes of those attributes: an attribute whose class
+                # (or one of its subclasses) is hashed by identity makes the whole hash depend on memory addresses
+                if depth < 3:
+                    anns = c.instance_attr_annotations()
+                    for n in ast.walk(hm.node):
+                        a = self_attr(n) if isinstance(n, ast.Attribute) else None
+                        if a is None or a not in anns:
+                            continue
+                        for nm in ann_class_names(anns[a]):
+                            for t in ix.classes_by_name.get(nm, []):
+                                for kk in [t] + t.all_subclasses():
+                                    if content_hashed(kk, depth + 1) is False:
+                                        return False
+                return True
             if "__eq__" in k.methods and "__hash__" not in k.methods and "__hash__" not in k.class_attrs:
                 # defines __eq__ without __hash__: unhashable (cannot be a set element at all)
                 return True
@@ -423,6 +514,15 @@ MUTANTS += [
     M("seed-constant", _ALG, "            random.seed(random_seed)\n", "            random.seed(0)\n", "R17-b"),
     M("dedupe-alternatives-through-set", "src/fandango/language/grammar/nodes/alternative.py", "        random.choice(in_range_nodes).fuzz(parent, grammar, max_nodes, in_message)", "        random.choice(list(set(in_range_nodes))).fuzz(parent, grammar, max_nodes, in_message)", "R17-c"),
 ]
+MUTANTS += [
+    M("cli-drops-falsy-options", "src/fandango/cli/utils.py", "    if hasattr(args, args_name) and getattr(args, args_name) is not None:\n        settings[name] = getattr(args, args_name)\n",
+      "    value = getattr(args, args_name, None)\n    if value:\n        settings[name] = value\n", "R17-d"),
+    M("constructor-seeds-only-truthy", _ALG, "        if random_seed is not None:\n            random.seed(random_seed)\n", "        if random_seed:\n            random.seed(random_seed)\n", "R17-d"),
+    M("failing-trees-deduplicated-through-set", "src/fandango/constraints/forall.py", "        failing_trees = list(\n            itertools.chain.from_iterable(\n                fitness.failing_trees for fitness in fitness_values\n            )\n        )\n",
+      "        failing_trees = list(\n            set(\n                itertools.chain.from_iterable(\n                    fitness.failing_trees for fitness in fitness_values\n                )\n            )\n        )\n", "R17-c"),
+]
 TWINS = [
+    M("twin-cli-copy-with-local", "src/fandango/cli/utils.py", "    if hasattr(args, args_name) and getattr(args, args_name) is not None:\n        settings[name] = getattr(args, args_name)\n",
+      "    value = getattr(args, args_name, None)\n    if value is not None:\n        settings[name] = value\n", None),
     M("twin-log-more-time", _ALG, "        LOGGER.info(f\"Time taken: {(time.time() - start_time):.2f} seconds\")\n\n        return solutions", "        LOGGER.info(f\"Time taken: {(time.time() - start_time):.3f} seconds\")\n\n        return solutions", None),
 ]
